@@ -355,11 +355,11 @@ def run(ctx):
 
     # ------------------------------------------------------------------ drive
     n_cut = ctx.n(330, 12000)
-    n_mc = ctx.n(3, 48)
+    n_mc = ctx.n(3, 24)
     if ctx.quick and ctx.shard > 1:
         n_mc = 0  # the confirmation stage (8x shots, one tape per shot) is expensive: two Monte-Carlo cases per quick run
-    mc_shots = 3000
-    mc_at = set(int(x) for x in np.linspace(0, max(n_cut - 1, 1), n_mc + 2)[1:-1]) if n_mc else set()
+    mc_shots = 2000
+    mc_at = set(5 + 31 * k for k in range(n_mc))  # early positions: a time-limited shard still reaches the Monte-Carlo monitor
     for j in range(n_cut):
         if not more():
             break
@@ -370,4 +370,4 @@ def run(ctx):
         if j in mc_at:
             ctx.case_index = gi + 10**7
             designed = (ctx.shard + len([x for x in mc_at if x < j])) % 2 == 0
-            mc_case(ctx.case_rng(gi + 10**7), gi, 2000 if designed else mc_shots, designed=designed)
+            mc_case(ctx.case_rng(gi + 10**7), gi, 1500 if designed else mc_shots, designed=designed)
